@@ -314,16 +314,18 @@ containment("_filter:FilterExtensibleMatch.unpack", options=_FO,
 
 # SubstringFilter ::= SEQUENCE { type AttributeDescription, substrings SEQUENCE OF CHOICE { initial [0], any [1], final [2] } }
 # initial / final as folds over the element stream of `substrings` (a second initial / final is rejected with ValueError, so "the
-# last one" is the only one); the `any` list is not stated here
+# last one" is the only one); `any` is the list of the contents of all [1] elements, in order (sel_list)
 _SUBS = "content_of(rest_of(%s))" % _C
 containment("_filter:FilterSubstrings.unpack", options=_FO,
             ensures=[_PROGRESS, "id_class(%s) == 2" % _V, "id_number(%s) == 4" % _V, "reader._view == rest_of(%s)" % _V,
                      "result.attribute == unutf8(content_of(%s))" % _C,
                      "(result.initial is None) == opt_none(%s, 0, True)" % _SUBS, "implies(result.initial is not None, result.initial == opt_val(%s, 0, empty()))" % _SUBS,
-                     "(result.final is None) == opt_none(%s, 2, True)" % _SUBS, "implies(result.final is not None, result.final == opt_val(%s, 2, empty()))" % _SUBS],
+                     "(result.final is None) == opt_none(%s, 2, True)" % _SUBS, "implies(result.final is not None, result.final == opt_val(%s, 2, empty()))" % _SUBS,
+                     "result.any == sel_list(%s, 1, nil_bytes())" % _SUBS],
             loops={0: dict(snapshot={"v0": "substrings_reader._view"},
                            invariant=["opt_none(substrings_reader._view, 0, initial is None) == opt_none(v0, 0, True)", "opt_val(substrings_reader._view, 0, or_empty(initial)) == opt_val(v0, 0, empty())",
-                                      "opt_none(substrings_reader._view, 2, final is None) == opt_none(v0, 2, True)", "opt_val(substrings_reader._view, 2, or_empty(final)) == opt_val(v0, 2, empty())"],
+                                      "opt_none(substrings_reader._view, 2, final is None) == opt_none(v0, 2, True)", "opt_val(substrings_reader._view, 2, or_empty(final)) == opt_val(v0, 2, empty())",
+                                      "sel_list(substrings_reader._view, 1, any_values) == sel_list(v0, 1, nil_bytes())"],
                            decreases="len(substrings_reader._view)")},
             exit_hints=["v0 == %s" % _SUBS])
 
